@@ -52,7 +52,7 @@ pub fn res_str(r: Result<String, ()>) -> String {
 fn run_case(ctx: &mut Ctx, dom: &str, a: &[Arg]) {
     match dom {
         "c14" | "align" | "conv" | "conveq" | "conveqc" | "elfty" | "fb" | "magic" | "pstr" => dom_common::run(ctx, dom, a),
-        "mbi" | "mbiwalk" | "mbinull" | "iters" | "elfname" | "mbihuge" => dom_mbi::run(ctx, dom, a),
+        "mbi" | "mbiwalk" | "mbinull" | "iters" | "elfname" | "mbihuge" | "bigwalk" => dom_mbi::run(ctx, dom, a),
         "hdr" | "hdrwalk" | "hdrnull" | "hiters" | "hdrhuge" | "findhuge" | "find" | "cksum" | "verify" => dom_hdr::run(ctx, dom, a),
         "cast" => dom_cast::run(ctx, a),
         "gettag" => dom_cast::run_gettag(ctx, a),
@@ -65,7 +65,19 @@ fn run_case(ctx: &mut Ctx, dom: &str, a: &[Arg]) {
     }
 }
 
+/// All cases run on a thread with a SMALL stack (a kernel's stack is a few pages, not the 8 MiB of a process's main
+/// thread): a recursion whose depth grows with the input (tags, sections, descriptors) overflows it and is seen as
+/// a crash of the case instead of going unnoticed.
+const CASE_STACK: usize = 256 * 1024;
+
 fn main() {
+    let h = std::thread::Builder::new().stack_size(CASE_STACK).spawn(real_main).expect("harness: cannot spawn");
+    if h.join().is_err() {
+        std::process::exit(3);
+    }
+}
+
+fn real_main() {
     std::panic::set_hook(Box::new(|_| {}));
     let argv: Vec<String> = std::env::args().collect();
     let file = &argv[1];
